@@ -5,7 +5,7 @@ from pyvc.checklib import Check, CheckerFault, Finding
 
 WHAT = {
     "C01": "per rule application inside a full phase-ordered fix run: code tokens identical (phases 2-5,7), identical up to case with literals untouched (phase 6), or equal after setting aside the documented optional elements with inserted names already present (phase 1); normalisers keep code tokens; generated nested designs: name after 'end' matches the statement closed",
-    "C02": "per rule application: comment / pragma / preprocessor token sequence identical (documented comment normalisers and removers excepted) and a '--' comment stays last on its line",
+    "C02": "per rule application: comment / pragma / preprocessor token sequence identical (documented comment normalisers and removers excepted) and a '--' comment stays last on its line; the single-line comments of the parsed model are the comments an independent scanner (bounded/commentlex.py: string literals, extended identifiers, character literals, delimited comments) finds in the text",
     "C03": "per rule application: phases 2-5 change nothing but white space (structure-group rules excepted), phase 6 only letter case with equal lengths and literals untouched, phase 7 / fixable:false / disabled / non-error severity change nothing",
     "C06": "check run: in-memory model (class, value, indent, code tags of every token) unchanged, second check gives the same report, disabling a seeded set of rules removes exactly their violations",
     "C07": "per rule application of a non-structural phase 2, 4, 5, 6 rule: line count unchanged, changed lines are reported lines, reported lines lie inside the file",
@@ -22,12 +22,12 @@ WHAT = {
 BASES = "the _fix_violation of 14 fix bases against effect contracts — token_case (243 of the 1049 rule objects inherit it unchanged), whitespace_between_tokens (171), the do-nothing default of vsg/rule.py (134: unfixable, naming and deprecated rules), token_indent (102), align_tokens_in_region_between_tokens (45, and 7 for its skipping-lines variant), blank_line_below_line_ending_with_token (36), token_prefix (26), previous_line (25), insert_carriage_return_after_token_if_it_is_not_followed_by_a_comment (18), split_line_at_token (17), blank_line_above_line_starting_with_token (16), consistent_token_case (10), remove_excessive_blank_lines_above_line_starting_with_token (5): 855 rules in all — with the _analyze of token_indent and whitespace_between_tokens proved to establish their preconditions; the preconditions of the other bases are assumed and OBSERVED: the contract text is evaluated by CPython around every real _fix_violation call of the bounded universe (bounded/monitor.py)"
 DED = {
     "C01": "vhdlFile.update is the splice of the analysed regions (everything in front of the first region keeps identity and place; one region: exactly old[:start] + new + old[end:]); remove_beginning_of_file_tokens is a filter; " + BASES + ": every non-white-space token of the region is the same object in the same order, token_case changes the first token's value in letter case only and keeps its length; the phase-1 normalisers (fix_blank_lines, fix_trailing_whitespace) keep every non-blank token and every line break",
-    "C02": BASES + ": non-white-space tokens (so every comment, pragma and preprocessor token of the region) are the same objects in the same order with unchanged values; the phase-1 normalisers keep them too",
+    "C02": BASES + ": non-white-space tokens (so every comment, pragma and preprocessor token of the region) are the same objects in the same order with unchanged values; the phase-1 normalisers keep them too; the classifier of single-line comments (classify_single_line_comment) makes exactly the text from a '--' token outside a delimited comment up to the trailing white space into ONE comment token: no character of the line is lost or duplicated, tokens in front are untouched",
     "C03": BASES + " (white-space rules write white-space tokens only; case rules change letter case only, same length); rule_list.fix calls Rule.fix only for error-type severities of enabled rules and Rule.fix does nothing at all when fixable is false (ghost operation log)",
     "C06": "rule_list.check_rules analyses exactly the enabled rules of the visited phases, each once, and modifies nothing but rule.violations and its own counters (frame proved against the assumed frame of Rule.analyze); add_violation / has_code_tag decide suppression from the stamped tags only",
     "C07": "the extraction helpers behind the three largest rule bases (get_tokens_matching, get_tokens_at_beginning_of_line_matching, get_sequence_of_tokens_matching: 516 rules) return regions whose recorded line is the line of their first token (1 + line breaks in front of the recorded start), given that the index agrees with the list; whitespace_before_token._get_tokens_of_interest (32 rules): get_token_and_n_tokens_before_it records the line of the matched (last) token, and the guard against line breaks among the first two tokens plus the re-count in extract_tokens make every region the rule hands on carry the line of its first token; extract_tokens: a sub-region's line is the region's line plus the line breaks skipped, its start index the region's start plus the tokens skipped; count_carriage_returns counts line breaks; " + BASES + ": the number of line breaks of the region is unchanged",
     "C08": "apply_rules: with --fix the single write happens after all fixing, exactly when some _fix_violation ran, and what is written is get_lines() of the model the final report is computed from (nothing between the write and the report modifies the token list); get_lines is the per-line concatenation of token values; write_vhdl_file writes join(get_lines()[1:]) + newline; the phase-1 normalisers and update_token_map are verified (index == INDEX(list) afterwards); rule_list.fix runs set_token_indent before phase 4 and the normalisers after phase 1",
-    "C09": "rule_list.fix: fixed order of phases, sub-phases and rules (a function of the rule list only), normalisers after phase 1, indent refresh before phase 4; the normalisers are idempotent-compatible filters (keep non-blank tokens and line breaks)",
+    "C09": "rule_list.fix: fixed order of phases, sub-phases and rules (a function of the rule list only), normalisers after phase 1, indent refresh before phase 4; enforce_prerequisites puts every rule that names prerequisites behind all rules of its sub-phase that name none, independently of which rules are enabled; the normalisers are idempotent-compatible filters (keep non-blank tokens and line breaks)",
     "C10": "Rule.fix analyses, filters, fixes each violation once and updates once; " + BASES + " have postconditions that state the region carries the requested white space / indentation / case afterwards; vhdlFile.update rebuilds the index iff bUpdateMap; whitespace_between_tokens._analyze: the width every violation asks for is a width the same analysis accepts for the option value in force (integer, '>N', '>=N', '<N', '<=N', 'N+'), so the rule cannot report again right after its own fix",
     "C18": "the extraction helpers behind the three largest rule bases (get_tokens_matching, get_tokens_at_beginning_of_line_matching, get_sequence_of_tokens_matching: 516 rules) and get_tokens_bounded_by (41 direct users) return regions that are exactly the slice of the token list at their recorded start (lengths 1, 1-2, len(sequence)), given that the index agrees with the list (the property's first clause, assumed there and observed at every analysis); rule_list.fix re-indexes after the phase-1 normalisers and nowhere else touches the list outside Rule.fix; vhdlFile.update: splice semantics and 'index rebuilt from the new list iff bUpdateMap'; update_token_map: index == INDEX(list); calculate_end_index / extract_tokens: [iStartIndex, iEndIndex) has as many positions as the region has real tokens and sub-regions shift the start by the tokens skipped; token_case._fix_violation keeps the region's token objects (remap=False is sound for it)",
     "C19": "vsg/tokens.py raises nothing for any string; apply_rules lets no ClassifyError / ConfigurationError / local-rules OSError escape, returns exit status True/1 for a rejected file and 'keep processing' after a syntax error; detect_subelement_until / classify_subelement_until (the statement-part loops of the parser) terminate (decreases clause) given that a classifier never returns an index in front of its argument; object_value_is raises IndexError exactly for an index past the end; the three fix bases above raise nothing under their preconditions",
